@@ -420,10 +420,8 @@ func init() {
 		nDel := 0
 		for _, pkg := range []string{"state/txindex/kv", "state/indexer/block/kv"} {
 			for _, f := range w.FuncsInPkg(pkg) {
-				if !strings.HasPrefix(f.Name(), "match") {
-					continue
-				}
-				for _, call := range w.callsTo(f, "builtin#delete") {
+				// the reduce loops of match / matchRange, or a helper they share
+				for _, call := range rawCallsTo(w, f, "builtin#delete") {
 					args := call.Common().Args
 					if len(args) != 2 {
 						continue
@@ -450,7 +448,7 @@ func init() {
 				}
 			}
 		}
-		c.Check(nDel >= 4, "kv indexers :: reduce loops found", "-", ">= 4 delete sites", fmt.Sprintf("%d", nDel))
+		c.Check(nDel >= 2, "kv indexers :: reduce loops found", "-", ">= 2 delete sites (4 when each matcher has its own loop)", fmt.Sprintf("%d", nDel))
 		// (c)
 		nParse := 0
 		for _, pkg := range []string{"libs/pubsub/query", "state/txindex/kv", "state/indexer/block/kv"} {
@@ -486,4 +484,17 @@ func isLoopHead(b *ssa.BasicBlock) bool {
 		}
 	}
 	return false
+}
+
+// rawCallsTo: calls written in f itself (helper bodies are visited as functions of their own).
+func rawCallsTo(w *World, f *ssa.Function, spec string) []ssa.CallInstruction {
+	var out []ssa.CallInstruction
+	for _, b := range f.Blocks {
+		for _, in := range b.Instrs {
+			if call, ok := in.(ssa.CallInstruction); ok && w.isCall(call, spec) {
+				out = append(out, call)
+			}
+		}
+	}
+	return out
 }
